@@ -25,8 +25,7 @@ Transcribed (same branches, same order of side effects):
   `Type`-then-`EvalBool` (`evalPred`), direct `EvalX` (`evalDirect`), `CopyReset` (fresh `FnState`, SAME cache), and `kapacitor.EvalPredicate` of the root
   package (`evalPoint`: `fillScope` over `FindReferenceVariables`, then `evalPred`).
 Abstracted: error values are one class (no decision of the repaired evaluator depends on the error);
-`EvalLambdaNode`, dynamic functions registered on a scope, `rand`, `now`, calls with exactly four arguments
-(`strReplace`) are not modelled; the cache is a tree parallel to the expression.
+`EvalLambdaNode` (see `C04Lambda.lean`), dynamic functions registered on a scope, `rand`, `now` are not modelled; the cache is a tree parallel to the expression.
 Core Lean only.
 -/
 import Kap.Model.C04Lib
@@ -41,6 +40,7 @@ inductive Expr (F : Type) where
   | call1 (fn : String) (a : Expr F)
   | call2 (fn : String) (a b : Expr F)
   | call3 (fn : String) (a b c : Expr F)
+  | call4 (fn : String) (a b c d : Expr F)   -- `maxArgs` arguments (`strReplace`)
   | callMany (fn : String)          -- a call with more than `maxArgs` (= 4) arguments
 deriving Repr, Inhabited
 
@@ -91,6 +91,11 @@ def k3 : Cache → Cache | .node _ _ _ _ _ a => a | .leaf => .leaf
 def setK1 (c k : Cache) : Cache := .node c.lt c.rt c.fn k c.k2 c.k3
 def setK2 (c k : Cache) : Cache := .node c.lt c.rt c.fn c.k1 k c.k3
 def setK3 (c k : Cache) : Cache := .node c.lt c.rt c.fn c.k1 c.k2 k
+/-- a call with four arguments keeps the caches of its third and fourth argument under `k3`. -/
+def k3a (c : Cache) : Cache := c.k3.k1
+def k3b (c : Cache) : Cache := c.k3.k2
+def setK3a (c k : Cache) : Cache := c.setK3 (c.k3.setK1 k)
+def setK3b (c k : Cache) : Cache := c.setK3 (c.k3.setK2 k)
 end Cache
 
 section
@@ -125,6 +130,7 @@ def compileOk : Expr F → Bool
   | .call1 _ a => compileOk a
   | .call2 _ a b => compileOk a && compileOk b
   | .call3 _ a b c => compileOk a && compileOk b && compileOk c
+  | .call4 _ a b c d => compileOk a && compileOk b && compileOk c && compileOk d
   | _ => true
 
 /-- the cache right after `NewExpression`. -/
@@ -137,6 +143,9 @@ def compileCache : Expr F → Cache
   | .call1 _ a => .node .invalid .invalid none (compileCache a) .leaf .leaf
   | .call2 _ a b => .node .invalid .invalid none (compileCache a) (compileCache b) .leaf
   | .call3 _ a b c => .node .invalid .invalid none (compileCache a) (compileCache b) (compileCache c)
+  | .call4 _ a b c d =>
+    .node .invalid .invalid none (compileCache a) (compileCache b)
+      (.node .invalid .invalid none (compileCache c) (compileCache d) .leaf)
   | _ => .leaf
 
 /-- `Signature()[domain]` for a builtin; `none` = undefined function or no such signature. -/
@@ -179,6 +188,16 @@ def typeP : Expr F → Option Ty
        | some tb => (match typeP c with | some tc => sigType ctx fn [ta, tb, tc] | none => none)
        | none => none)
     | none => none
+  | .call4 fn a b c d =>
+    match typeP a with
+    | some ta =>
+      (match typeP b with
+       | some tb =>
+         (match typeP c with
+          | some tc => (match typeP d with | some td => sigType ctx fn [ta, tb, tc, td] | none => none)
+          | none => none)
+       | none => none)
+    | none => none
   | .callMany _ => none
 
 /-- `Type(scope)`: its writes to the cache (`n.leftType, err = …; n.rightType, err = …` on dynamic math nodes). -/
@@ -201,6 +220,15 @@ def typeW : Expr F → Cache → Cache
     if (typeP ctx σ a).isSome then
       let c2 := c1.setK2 (typeW b c.k2)
       if (typeP ctx σ b).isSome then c2.setK3 (typeW d c.k3) else c2
+    else c1
+  | .call4 _ a b d e, c =>
+    let c1 := c.setK1 (typeW a c.k1)
+    if (typeP ctx σ a).isSome then
+      let c2 := c1.setK2 (typeW b c.k2)
+      if (typeP ctx σ b).isSome then
+        let c3 := c2.setK3a (typeW d c.k3a)
+        if (typeP ctx σ d).isSome then c3.setK3b (typeW e c.k3b) else c3
+      else c2
     else c1
   | _, c => c
 
@@ -405,6 +433,29 @@ def evalC (w : Ty) : Expr F → Cache → FnState F → Outcome (Value F) × Cac
           | o => (o, ((c.setK1 k1).setK2 k2).setK3 k3, s3))
        | o => (o, (c.setK1 k1).setK2 k2, s2))
     | o => (o, c.setK1 k1, s1)
+  | .call4 fn a b d e, c, st =>
+    let ka := typeW ctx σ a c.k1
+    let (r1, k1, s1) := argEval (typeP ctx σ a) (missOk a) ka st (fun t => evalC t a ka st)
+    match r1 with
+    | .ok v1 =>
+      let kb := typeW ctx σ b c.k2
+      let (r2, k2, s2) := argEval (typeP ctx σ b) (missOk b) kb s1 (fun t => evalC t b kb s1)
+      (match r2 with
+       | .ok v2 =>
+         let kd := typeW ctx σ d c.k3a
+         let (r3, k3, s3) := argEval (typeP ctx σ d) (missOk d) kd s2 (fun t => evalC t d kd s2)
+         (match r3 with
+          | .ok v3 =>
+            let ke := typeW ctx σ e c.k3b
+            let (r4, k4, s4) := argEval (typeP ctx σ e) (missOk e) ke s3 (fun t => evalC t e ke s3)
+            (match r4 with
+             | .ok v4 =>
+               let (res, st') := callFn ctx fn [v1, v2, v3, v4] s4
+               (chk w res, (((c.setK1 k1).setK2 k2).setK3a k3).setK3b k4, st')
+             | o => (o, (((c.setK1 k1).setK2 k2).setK3a k3).setK3b k4, s4))
+          | o => (o, ((c.setK1 k1).setK2 k2).setK3a k3, s3))
+       | o => (o, (c.setK1 k1).setK2 k2, s2))
+    | o => (o, c.setK1 k1, s1)
   | .callMany fn, c, st =>
     -- callFunction evaluates the (literal) arguments and calls: every builtin rejects > 4 arguments, count ignores them
     let (res, st') := callFn ctx fn [.missing, .missing, .missing, .missing, .missing] st
@@ -492,6 +543,25 @@ def evalN (w : Ty) : Expr F → FnState F → Outcome (Value F) × FnState F
           | o => (o, s3))
        | o => (o, s2))
     | o => (o, s1)
+  | .call4 fn a b d e, st =>
+    let (r1, s1) := argEvalN (typeP ctx σ a) (missOk a) st (fun t => evalN t a st)
+    match r1 with
+    | .ok v1 =>
+      let (r2, s2) := argEvalN (typeP ctx σ b) (missOk b) s1 (fun t => evalN t b s1)
+      (match r2 with
+       | .ok v2 =>
+         let (r3, s3) := argEvalN (typeP ctx σ d) (missOk d) s2 (fun t => evalN t d s2)
+         (match r3 with
+          | .ok v3 =>
+            let (r4, s4) := argEvalN (typeP ctx σ e) (missOk e) s3 (fun t => evalN t e s3)
+            (match r4 with
+             | .ok v4 =>
+               let (res, st') := callFn ctx fn [v1, v2, v3, v4] s4
+               (chk w res, st')
+             | o => (o, s4))
+          | o => (o, s3))
+       | o => (o, s2))
+    | o => (o, s1)
   | .callMany fn, st =>
     let (res, st') := callFn ctx fn [.missing, .missing, .missing, .missing, .missing] st
     (chk w res, st')
@@ -570,6 +640,7 @@ def refsOf {F : Type} : Expr F → List String
   | .call1 _ a => refsOf a
   | .call2 _ a b => refsOf a ++ refsOf b
   | .call3 _ a b c => refsOf a ++ refsOf b ++ refsOf c
+  | .call4 _ a b c d => refsOf a ++ refsOf b ++ refsOf c ++ refsOf d
   | _ => []
 
 def assoc {α : Type} (l : List (String × α)) (n : String) : Option α :=
